@@ -39,7 +39,14 @@ type target interface {
 	Write(*dto.Metric) error
 }
 
-func mkTarget(summary bool, bounds []float64) target {
+func mkTarget(summary bool, bounds []float64, hybrid ...bool) target {
+	if len(hybrid) > 0 && hybrid[0] && !summary {
+		// classic and native buckets together, with a bucket limit that the distinct powers of two exceed at once:
+		// the limit strategies (resolution halving) swap and merge the hot and cold counts, too - every scrape must
+		// still be a consistent snapshot of the classic part
+		return prometheus.NewHistogram(prometheus.HistogramOpts{Name: "h", Buckets: bounds,
+			NativeHistogramBucketFactor: 1.1, NativeHistogramMaxBucketNumber: 3}).(target)
+	}
 	if summary {
 		return prometheus.NewSummary(prometheus.SummaryOpts{Name: "s"}).(target) // no objectives => noObjectivesSummary
 	}
@@ -255,7 +262,8 @@ func runC02(c *cli.Ctx) error {
 			if summary {
 				bounds = nil
 			}
-			t := mkTarget(summary, bounds)
+			hybrid := !summary && it%2 == 1
+			t := mkTarget(summary, bounds, hybrid)
 			var clock int64
 			recs := make([][]callRec, nthreads)
 			var wg sync.WaitGroup
@@ -290,7 +298,7 @@ func runC02(c *cli.Ctx) error {
 				}
 				recheckKept()
 			}
-			w.Add(emit.Tup(emit.I(kind), emit.FL(bounds), progsSx(progs), emit.L(nil), emit.L(nil), callsSx(all), emit.I(flags)), true, fmt.Sprintf("threads:%d", nthreads))
+			w.Add(emit.Tup(emit.I(kind), emit.FL(bounds), progsSx(progs), emit.L(nil), emit.L(nil), callsSx(all), emit.I(flags)), true, fmt.Sprintf("threads:%d", nthreads), fmt.Sprintf("classic+native-with-bucket-limit:%v", hybrid))
 			if flags != 0 {
 				w.Extra["stopped_after_hang_at_run"] = it
 				break
